@@ -578,14 +578,19 @@ def rel_run(d, variant, segments, pass_state=True):
     return out
 
 
-def pair_event(kind_clause, solver, niter, A, B, na, nb):
-    """Quantise two iterate sequences (lists of float arrays) pair-relative; None if not comparable."""
-    a, b = [], []
-    for u, v in zip(A, B):
-        qp = quant_pair_vecs(u, v)
-        if qp is None:
+def pair_event(kind_clause, solver, niter, A, B, na, nb, bits=20):
+    """Quantise two iterate sequences (lists of float arrays) relative to the largest magnitude of the PAIR OF
+    RUNS (an entry that is exactly 0 in one run and 1e-17 in the other is rounding, not a difference);
+    None if not comparable (non-finite values)."""
+    s = 1e-300
+    for u in list(A) + list(B):
+        u = np.asarray(u, dtype=float)
+        if not np.all(np.isfinite(u)):
             return None
-        a.append(qp[0])
-        b.append(qp[1])
+        if u.size:
+            s = max(s, float(np.max(np.abs(u))))
+    sc = (2 ** bits) / s
+    a = [[int(round(v * sc)) for v in np.asarray(u, dtype=float)] for u in A]
+    b = [[int(round(v * sc)) for v in np.asarray(u, dtype=float)] for u in B]
     return {'kind': 'pair', 'clause': kind_clause, 'solver': solver, 'niter': niter,
             'a': a, 'b': b, 'na': na, 'nb': nb}
